@@ -119,6 +119,9 @@ class History:
         self.K = r.randint(8, 30) if big else r.randint(1, 8)
         if self.stress:
             self.K = 2 * len(self.users) + r.choice([0, 1, 2])
+            if self.twin and r.random() < 0.35:
+                # dense sale: most tickets win, so the leftover re-draws often land on winners (no progress in that call)
+                self.K = 4 * len(self.users) + r.choice([0, 1, 2])
         self.round = r.randint(0, 40)
         self.epoch = r.randint(0, 5)
         self.conf, self.ws = 100, 200
